@@ -27,6 +27,7 @@ def cases(tier, seed):
     for n in range(1, nmax + 1):
         for w in list(range(1, n + 1)) + [None]:
             yield f"C17|parallel|n={n},w={w}", {"kind": "parallel", "n": n, "w": w, "tier": tier}
+    yield "C17|parallel|n=12,structured-orders", {"kind": "parallel-many", "n": 12, "tier": tier}
     for cls in ("SequentialModel", "ConfigurableModel"):
         yield f"C17|sequential|{cls}", {"kind": "seq-bfs", "cls": cls, "tier": tier}
     yield "C17|sequential|fixed-pipelines", {"kind": "fixed", "tier": tier}
@@ -41,12 +42,12 @@ def cases(tier, seed):
 
 
 def component_of(p):
-    return {"parallel": "parallel", "seq-bfs": "sequential", "fixed": "sequential", "branching": "branching", "feedback": "feedback", "mac": "mac", "wz": "wyner-ziv", "tlc": "parallel"}[p["kind"]]
+    return {"parallel": "parallel", "seq-bfs": "sequential", "fixed": "sequential", "branching": "branching", "feedback": "feedback", "mac": "mac", "wz": "wyner-ziv", "tlc": "parallel", "parallel-many": "parallel"}[p["kind"]]
 
 
 def execute(p, res):
     {"parallel": parallel_case, "seq-bfs": seq_bfs_case, "fixed": fixed_case, "branching": branching_case, "feedback": feedback_case,
-     "mac": mac_case, "wz": wz_case, "tlc": tlc_case}[p["kind"]](p, res)
+     "mac": mac_case, "wz": wz_case, "tlc": tlc_case, "parallel-many": parallel_many_case}[p["kind"]](p, res)
 
 
 # ----------------------------------------------------------------------------- parallel (E3)
@@ -59,7 +60,9 @@ def parallel_case(p, res):
         "branches": lambda br, agg: ParallelModel(max_workers=w, branches=list(br), aggregator=agg),
         "add_step": lambda br, agg: _added(ParallelModel(max_workers=w, aggregator=agg), br),
     }
-    names = {"steps": [f"name{i}" for i in range(n)], "branches": [f"branch_{i}" for i in range(n)], "add_step": [f"step_{i}" for i in range(n)]}
+    unsorted = ["zeta", "alpha", "mid", "beta", "omega", "gamma"]
+    decl["steps-unsorted"] = lambda br, agg: ParallelModel(max_workers=w, steps=[(unsorted[i], b) for i, b in enumerate(br)], aggregator=agg)
+    names = {"steps": [f"name{i}" for i in range(n)], "branches": [f"branch_{i}" for i in range(n)], "add_step": [f"step_{i}" for i in range(n)], "steps-unsorted": unsorted[:n]}
     fn = lambda i, x, *a, **k: ("res", i, x, a, tuple(sorted(k.items())))  # noqa: E731
     infeasible = 0
     for how, mk in decl.items():
@@ -102,8 +105,38 @@ def parallel_case(p, res):
                 else:
                     if r["result"] != exp:
                         v("aggregator-order", f"completion order {order}: aggregator received {[t[1] for t in r['result']] if isinstance(r['result'], list) else r['result']} instead of results of branches 0..{n - 1} in declared order", {"order": list(order)})
-    res.bump("schedules", len(orders) * 6)
+    res.bump("schedules", len(orders) * 8)
     res.sample({"n": n, "max_workers": w, "feasible_orders": len(orders), "first": list(orders[0]), "last": list(orders[-1])})
+
+
+def parallel_many_case(p, res):
+    """12 branches (auto-named branch_0..branch_11 / step_0..step_11: names no longer sort like their indices); 12! orders cannot be enumerated,
+    so a structured family of completion orders is played: identity, reversal, every rotation, evens-then-odds, odds-then-evens"""
+    from kaira.models.generic.parallel import ParallelModel
+    n = p["n"]
+    orders = [tuple(range(n)), tuple(reversed(range(n)))] + [tuple((i + r) % n for i in range(n)) for r in range(1, n)]
+    orders += [tuple(range(0, n, 2)) + tuple(range(1, n, 2)), tuple(range(1, n, 2)) + tuple(range(0, n, 2))]
+    fn = lambda i, x, *a, **k: ("res", i, x)  # noqa: E731
+    for how in ("branches", "add_step"):
+        for agg_name, agg in (("none", None), ("list", lambda rs: list(rs))):
+            cfg = f"n={n},w=None,{how},agg={agg_name}"
+            mk = (lambda br: ParallelModel(branches=list(br), aggregator=agg)) if how == "branches" else (lambda br: _added(ParallelModel(aggregator=agg), br))
+            names = [f"branch_{i}" if how == "branches" else f"step_{i}" for i in range(n)]
+            for order in orders:
+                r1 = sched.play(mk, n, order, 7, fn=fn)
+                r2 = sched.play(mk, n, order, 7, fn=fn)
+                res.ev(1, nontrivial=1, transitions=2 * n, traces=2)
+                if repr(r1["result"]) != repr(r2["result"]) or not r1["feasible"] or r1["ends"] != list(order) or r1["exception"] is not None:
+                    res.viol("parallel", cfg, "nondeterministic", f"schedule {order}: replay mismatch / not forced (ends {r1['ends']}, exception {r1['exception']})")
+                    continue
+                exp = [fn(i, 7) for i in range(n)]
+                if agg is None:
+                    got = r1["result"]
+                    if not isinstance(got, dict) or set(got) != set(names) or any(got[nm] != exp[i] for i, nm in enumerate(names)):
+                        res.viol("parallel", cfg, "name->result", f"completion order {order}: wrong name -> result mapping")
+                elif r1["result"] != exp:
+                    res.viol("parallel", cfg, "aggregator-order", f"completion order {order}: aggregator received results of branches {[t[1] for t in r1['result']]} instead of 0..{n - 1} in declared order", {"order": list(order)})
+    res.sample({"n": n, "orders": len(orders)})
 
 
 def _added(model, br):
